@@ -225,6 +225,12 @@ def pool_families():
     out.append(make('Dblock_Db_p2', 2, 2, 1, [D(1, block=1), D(2)], [S(2)]))
     out.append(make('FDgate_Db_p1', 2, 1, 1, [FD(1, aw=[1], then='detach'), D(2)], [S(2)]))
     out.append(make('Sblockedcaller_Db_p1', 2, 1, 1, [D(1, block=1)], [D(2), S(2)], [FIRE(1)]))
+    # nobody syncs: the other object's operation has to be run by the pool while k objects are blocked for ever
+    out.append(make('Dblock_Db_nosync_p2', 2, 2, 1, [D(1, block=1), D(2)]))
+    out.append(make('Dblock_Db_race_nosync_p2', 2, 2, 1, [D(1, block=1)], [D(2)]))
+    out.append(make('Dblock_Dblock_Dc_p3', 3, 3, 2, [D(1, block=1), D(2, block=2)], [D(3)]))
+    # ... also after an earlier job on an unrelated object has panicked on a pool thread (the pool replaces the thread it lost)
+    out.append(make('panic_then_block_p2', 3, 2, 1, [D(3, panic=True), S(3), D(1, block=1), D(2)]))
     return out
 
 
